@@ -3686,6 +3686,11 @@ where
                         Some(track_offset) => {
                             // work-in-progress track has offset,
                             // so deduct that offset from this index point's
+                            // (which may not lie before the track's start)
+
+                            if offset.into() < (*track_offset).into() {
+                                return Err(CuesheetError::IndexPointsOutOfSequence);
+                            }
 
                             cuesheet::Index {
                                 number,
